@@ -58,7 +58,7 @@ pub fn gencfg(prop: &str, tier: &str, rng: &mut Rng) -> GenCfg {
             g.mix = everything;
             g.mix.collect = 2;
             g.pressure = true;
-            g.hold_guard = 70;
+            g.hold_guard = 55;
             g.allow_set = prop == "C04";
         }
         "C05" => {
@@ -185,6 +185,8 @@ fn base_plan(prop: &str, tier: &str, run_seed: u64) -> Plan {
     let mut setup = gen::gen_setup(&mut srng, run_seed, &program, stall_pct, spurious);
     if scripted && srng.chance(1, 2) {
         setup.strat = gen::shrinking_tree_script(&mut srng, program.threads.len());
+    } else if matches!(prop, "C03" | "C04") && program.threads.len() >= 2 && srng.chance(1, 4) {
+        setup.strat = gen::retire_race_script(&mut srng, program.threads.len());
     }
     let mut opts = ExecOpts::default();
     if prop == "C06" {
@@ -193,6 +195,9 @@ fn base_plan(prop: &str, tier: &str, run_seed: u64) -> Plan {
     }
     if prop == "C10" {
         opts.post_growth = true;
+    }
+    if prop == "C03" && run_seed % 3 == 0 {
+        opts.retire_check = true;
     }
     if prop == "C15" {
         opts.log_reads = true;
@@ -442,6 +447,7 @@ pub fn judge(prop: &str, p: &Program, r: &RunResult, opts: &ExecOpts, js: &mut J
             out.extend(oracle::memory(r));
             out.extend(oracle::collects(r));
             js.bump("references_checked", r.refs_checked);
+            js.bump("retirements_checked_for_reachability", r.retire_checks);
         }
         "C04" => {
             out.extend(oracle::drops(r));
@@ -487,6 +493,9 @@ pub fn judge(prop: &str, p: &Program, r: &RunResult, opts: &ExecOpts, js: &mut J
             js.bump("pure_counter_keys_checked", c as u64);
         }
         "C10" => {
+            // migration must preserve the contents: no entry lost, duplicated or misplaced by a resize
+            out.extend(run_lin(p, r, js));
+            out.extend(oracle::quiescent_consistency(p, r).into_iter().filter(|v| !v.detail.contains("is held at quiescence")));
             let mut rs = ResizeStats::default();
             out.extend(oracle::resizes(r, &mut rs));
             js.bump("resize_generations", rs.generations as u64);
